@@ -76,6 +76,16 @@ CHECKS = {
    note="Determinism of the PUP / DP rewritings is explored too but only reported as an observation: the statement is about parsing and rendering. Threads are real OS threads serialised by the hook; memory-model effects are not explored (the counter is a Mutex)."),
 }
 NOT_YET = {}
+COMPOSED = {
+ "C01": ", here as aggregates over level-1 terms and over joins, plus ordered pairs / triples of aggregates over two columns",
+ "C09": ", here as aggregates over level-1 terms and over joins, plus ordered pairs / triples of aggregates over two columns",
+ "C03": ", here as joins / set operations of two aggregating sub-queries (same mechanism shape)",
+ "C05": ", each subject also with tables registered under a Qrlew name different from the path and at schema-qualified paths",
+ "C02": ", subjects also with tables registered under a Qrlew name different from the path and at schema-qualified paths",
+ "C07": "", "C08": "", "C14": "", "C13": "", "C16": "", "C17": ", plus a check that the translated WITH clause declares every name once",
+ "C18": ", plus a sweep of every scalar function of the SQL front-end over column kinds and constants",
+}
+
 def main():
     props = [json.loads(l) for l in open('/verif/properties.jsonl')]
     checks = []
@@ -83,7 +93,10 @@ def main():
     for p in props:
         pid = p['id']
         if pid in CHECKS:
-            c = CHECKS[pid]
+            c = dict(CHECKS[pid])
+            if pid in COMPOSED:
+                c['technique'] += "; the program space is the hand-written E-sql list plus every constructor term (projection / aggregation / DISTINCT / ORDER-LIMIT / join / set operation / shared CTE) of nesting depth <= 2 (thorough 3) over lean alphabets (harness/src/sqlgen2.rs)" + COMPOSED[pid]
+                c['note'] += " Known findings are matched per case or, for the composed terms, per root-cause class (kind @structural feature of the relation, harness/src/features.rs)."
             checks.append({
                 "property_id": pid,
                 "quick_cmd": f"./check {pid} quick",
@@ -111,7 +124,7 @@ def main():
         "engines": [{"name": "qv", "path": "/verif/harness", "serves_properties": sorted(CHECKS), "kind_free_text": "Rust binary linking the real qrlew crate from /repo's working tree; deterministic exhaustive enumerators, explicit-state search (stateright), in-process SQLite as independent SQL semantics"}],
         "checks": checks,
         "not_applicable": na,
-        "notes": "All checks: ./check <ID> <quick|thorough> [--replay file]. exit 0 held / 1 VIOLATION / 2 machinery failure. Known genuine defects: /verif/known_findings.json.",
+        "notes": "All checks: ./check <ID> <quick|thorough> [--replay file]. exit 0 held / 1 VIOLATION (takes precedence) / 2 machinery failure only. Known genuine defects: /verif/known_findings.json.",
     }
     json.dump(m, open('/verif/MANIFEST.json', 'w'), indent=1)
     print("checks:", [c['property_id'] for c in checks], "not_applicable:", len(na))
